@@ -42,14 +42,55 @@ Theorem C04_simulates_fibonacci :
     accepts K V cmp eqv (empty_bags sizes) ops (run K V cmp eqv Fibonacci sizes ops).
 Proof. intros K V cmp eqv TO. exact (fibonacci_simulates cmp eqv TO). Qed.
 
+(** The property in one statement: three implementations x min/max orientation x every initial
+    size x every well-scoped history ([mergeable Binary = false]: no [Merge] on the binary heap). *)
+Theorem C04_heaps_are_priority_queues :
+  forall (K V : Type) (cmp : K -> K -> Z) (eqv : V -> V -> bool), TotalOrder K cmp ->
+  forall (i : impl) (sizes : list nat) (ops : list (hop K V)),
+    well_scoped K V (mergeable i) (all_live sizes) ops = true ->
+    accepts K V cmp eqv (empty_bags sizes) ops (run K V cmp eqv i sizes ops) /\
+    accepts K V (fun a b => cmp b a) eqv (empty_bags sizes) ops
+            (run K V (fun a b => cmp b a) eqv i sizes ops).
+Proof. intros K V cmp eqv TO. exact (both_orientations cmp eqv TO). Qed.
+
+(** What [accepts] says about one step, spelled out (so that the specification cannot hide a
+    weak reading): an answered [Delete] returns a held entry whose key precedes every held key,
+    and exactly that entry leaves the bag; [Size] is the number of held entries; [ContainsKey]
+    is membership up to [cmp = 0]; [Merge] is multiset union and kills the argument. *)
+Theorem C04_spec_delete :
+  forall (K V : Type) (cmp : K -> K -> Z) (eqv : V -> V -> bool) B e B',
+    spec_step K V cmp eqv B Delete (OEntry (Some e)) B' ->
+    In e B /\ (forall x, In x B -> cmp (fst e) (fst x) <= 0) /\ Permutation.Permutation B (e :: B').
+Proof. intros K V cmp eqv. exact (delete_meaning cmp eqv). Qed.
+
+Theorem C04_spec_size :
+  forall (K V : Type) (cmp : K -> K -> Z) (eqv : V -> V -> bool) B n B',
+    spec_step K V cmp eqv B Size (ONat n) B' -> n = length B /\ B' = B.
+Proof. intros K V cmp eqv. exact (size_meaning cmp eqv). Qed.
+
+Theorem C04_spec_contains_key :
+  forall (K V : Type) (cmp : K -> K -> Z) (eqv : V -> V -> bool) B k b B',
+    spec_step K V cmp eqv B (ContainsKey k) (OBool b) B' ->
+    (b = true <-> exists e, In e B /\ cmp (fst e) k = 0) /\ B' = B.
+Proof. intros K V cmp eqv. exact (contains_key_meaning cmp eqv). Qed.
+
+Theorem C04_spec_merge :
+  forall (K V : Type) (cmp : K -> K -> Z) (eqv : V -> V -> bool) P i j r P',
+    pspec_step K V cmp eqv P (i, Merge j) r P' ->
+    exists Bi Bj B', i <> j /\ nth_error P i = Some (Some Bi) /\ nth_error P j = Some (Some Bj) /\
+                    Permutation.Permutation B' (Bi ++ Bj) /\ r = ONone /\
+                    P' = upd (upd P i (Some B')) j None.
+Proof. intros K V cmp eqv. exact (merge_meaning cmp eqv). Qed.
+
 (** What the package's own [verify()] checks holds in every reachable state
     ([p_final]: the pool after the history).
     Binary ([binv]): [n < len(heap)], slot 0 and the slots above [n] are nil, slots [1..n] are not,
     every parent precedes its children.
     Binomial ([ninv], [nshape]): heap-ordered trees, [n] = number of nodes, root orders strictly
     increasing, every tree a binomial tree (a node of order [o] has children of orders [o-1 … 0]).
-    Fibonacci ([finv]): heap-ordered trees with at least [2^degree] nodes, [n] = number of nodes,
-    the entry point [h.ext] of the root ring has an extremal key. *)
+    Fibonacci ([finv]): heap-ordered trees with at least [2^degree] nodes whose children have the
+    degrees [degree-1 … 0] (binomial trees: the non-indexed heap never cuts), [n] = number of
+    nodes, the entry point [h.ext] of the root ring has an extremal key. *)
 Theorem C04_binary_invariant :
   forall (K V : Type) (cmp : K -> K -> Z) (eqv : V -> V -> bool), TotalOrder K cmp ->
   forall sizes ops, well_scoped K V false (all_live sizes) ops = true ->
@@ -125,6 +166,9 @@ Proof. vm_compute. repeat split. Qed.
 Print Assumptions C04_simulates_binary.
 Print Assumptions C04_simulates_binomial.
 Print Assumptions C04_simulates_fibonacci.
+Print Assumptions C04_heaps_are_priority_queues.
+Print Assumptions C04_spec_delete.
+Print Assumptions C04_spec_merge.
 Print Assumptions C04_binary_invariant.
 Print Assumptions C04_binomial_invariant.
 Print Assumptions C04_fibonacci_invariant.
